@@ -124,6 +124,12 @@ def run_kind(family, kind, timeout_ms=None, config=None):
             # an exception escaped that the family's contract did not account for: the path must be infeasible
             tb = "".join(traceback.format_exception_only(type(pr.exc), pr.exc)).strip()
             where = traceback.extract_tb(pr.exc.__traceback__)[-1]
+            # not the code's behaviour but the checker's: solver API errors, exception classes private to the engine (e.g. a value the symbolic numpy cannot
+            # take as an array), lookups failing inside the engine, or inside the body of the proof script itself (a script written for another shape of
+            # implementation: "cannot state the contract" is undecided, never a refutation)
+            script_body = ("vf/proofs" in (where.filename or "") and where.name == "run"
+                           and isinstance(pr.exc, (AttributeError, NameError, KeyError, IndexError, TypeError)))
+            checker_side = type(pr.exc).__module__.startswith("vf.") or script_body
             if isinstance(pr.exc, z3.Z3Exception) or (
                     isinstance(pr.exc, (AttributeError, NameError, KeyError)) and "vf/sym" in (where.filename or "")):
                 out["obligations"].append({"name": f"{family.name}/{kind}/path={path}/engine", "status": "undecided",
@@ -134,6 +140,7 @@ def run_kind(family, kind, timeout_ms=None, config=None):
             ob = core.Obligation(f"no-exception[{type(pr.exc).__name__}]", pr.ctx.hyps, [] if closed else pr.ctx.schemas, [] if closed else pr.ctx.pool,
                                  z3.BoolVal(False), kind="noexc", derivers=() if closed else pr.ctx.derivers,
                                  info={"exception": tb, "at": f"{os.path.basename(where.filename)}:{where.lineno}"})
+            ob.checker_side = checker_side          # such a path may still be shown infeasible; if it is not, that is undecided, not a refutation
             obs.append(ob)
         # vacuity guard: the hypotheses under which this path's obligations were proved must be satisfiable
         if obs and pr.kind == "return" and not any(z3.is_false(o.goal) for o in obs):
@@ -153,6 +160,11 @@ def run_kind(family, kind, timeout_ms=None, config=None):
                    "solver": ob.solver, "kind": ob.kind, "reason": ob.reason}
             if ob.info:
                 rec["info"] = {k: str(v) for k, v in ob.info.items()}
+            if ob.status != "proved" and getattr(ob, "checker_side", False):
+                rec.update({"name": f"{family.name}/{kind}/path={path}/engine", "status": "undecided", "kind": "engine",
+                            "reason": "engine error: the proof script / engine cannot follow this path of the implementation: " + str(ob.info.get("exception"))})
+                out["obligations"].append(rec)
+                continue
             if ob.status in ("undecided",):
                 r2 = try_other_solvers(ob, timeout_ms)
                 if r2:
